@@ -121,7 +121,8 @@ def anneal[T](
         neighbor_obj = evaluate(neighbor)
         delta = neighbor_obj - obj
 
-        if delta < 0 or rng.random() < exp(-delta / temperature):
+        # at temperature 0 (min_temp=0 lets the schedule get there) only improvements are accepted
+        if delta < 0 or (temperature > 0 and rng.random() < exp(-delta / temperature)):
             solution, obj = neighbor, neighbor_obj
 
             if obj < best_obj:
